@@ -4,6 +4,8 @@
 //! prefix) x presets x every budget N in 1..=NMAX x thresholds {-1, -0.0, 0, NaN, +inf} u
 //! {prev(b_t), b_t, next(b_t)} for every total bound b_t of the unthresholded prefix runs t <= N.
 //! Oracle: solve(N, r) is bitwise solve(t*, 0) with t* = min{t : b_t < r} (or N).
+//! Budgets far beyond the horizon ({2^32+1, u64::MAX-1, u64::MAX = "unlimited"}) are run with the
+//! thresholds the run is known to pass within the horizon.
 use super::c08::{method_name, preset_impl, METHODS, PRESET_NAMES};
 use super::c18::{next_down, next_up};
 use super::universe_summary;
@@ -32,6 +34,17 @@ fn run_bits(tree: &Tree, game: &crate::subject::G, method: RefMethod, preset: us
     let solve = || guarded(|| run_impl(tree, game, method, iters, max_reg, threads, target, Some(preset_impl(preset)), &decider));
     // multi-threaded solves one at a time (building thread pools concurrently is slow here)
     let out = if threads == 1 { solve() } else { crate::multi::gated(solve) }.map_err(|m| format!("panic: {}", m))??;
+    Ok((
+        [out.raw[0].iter().map(|x| x.to_bits()).collect(), out.raw[1].iter().map(|x| x.to_bits()).collect()],
+        [out.bounds[0].to_bits(), out.bounds[1].to_bits()],
+    ))
+}
+
+/// the same without the gate (used under the watchdog: a solve that never returns must not keep it)
+fn run_bits_ungated(tree: &Tree, game: &crate::subject::G, method: RefMethod, preset: usize, iters: u64, max_reg: f64, seed: u64, threads: usize) -> Result<Out, String> {
+    let decider = Pinned::new(BTreeMap::new(), Fallback::Hash(seed));
+    let target = if threads == 1 { None } else { Some(1) };
+    let out = guarded(|| run_impl(tree, game, method, iters, max_reg, threads, target, Some(preset_impl(preset)), &decider)).map_err(|m| format!("panic: {}", m))??;
     Ok((
         [out.raw[0].iter().map(|x| x.to_bits()).collect(), out.raw[1].iter().map(|x| x.to_bits()).collect()],
         [out.bounds[0].to_bits(), out.bounds[1].to_bits()],
@@ -105,6 +118,46 @@ pub fn check_game(ctx: &Ctx, tree: &Tree, method: RefMethod, preset: usize, nmax
                 if tstar < n && !(bound < r) {
                     ctx.violation("bound-not-below", &format!("stopped after {} < {} iterations with bound {} not below {}", tstar, n, bound, r), base.clone());
                     ok = false;
+                }
+            }
+        }
+    }
+    // budgets far beyond the horizon, among them the documented "unlimited" budget u64::MAX: with a
+    // threshold that the run is known to pass within the horizon, the result is the same prefix run.
+    // (Run under a watchdog: an implementation that misses the stop would never return.)
+    for big in [u64::MAX, u64::MAX - 1, (1u64 << 32) + 1] {
+        let mut thresholds = vec![f64::INFINITY];
+        for t in 1..=nmax {
+            thresholds.push(next_up(total(&prefix[t as usize])));
+        }
+        thresholds.dedup_by(|a, b| a.to_bits() == b.to_bits());
+        for r in thresholds {
+            let tstar = match (1..=nmax).find(|t| total(&prefix[*t as usize]) < r) {
+                Some(t) => t,
+                None => continue,
+            };
+            let owned = tree.clone();
+            let answer = crate::framework::with_deadline(120, move || build(&owned).map_err(|e| format!("{:?}", e)).and_then(|game| run_bits_ungated(&owned, &game, method, preset, big, r, seed, threads)));
+            let mut rep = base.clone();
+            rep["budget"] = json!(big);
+            rep["threshold"] = if r.is_finite() { json!(r) } else { json!(format!("{}", r)) };
+            ctx.case(tstar, true);
+            ctx.count("budgets_beyond_the_horizon_(incl. u64::MAX)", 1);
+            match answer {
+                Some(Ok(got)) if got == prefix[tstar as usize] => {}
+                Some(Ok(got)) => {
+                    let equals: Vec<u64> = (0..=nmax).filter(|t| prefix[*t as usize] == got).collect();
+                    let class = if equals.iter().any(|t| *t < tstar) { "stopped-early" } else if equals.is_empty() { "not-a-prefix" } else { "stopped-late" };
+                    ctx.violation(class, &format!("solve(N={}, r={}) equals the unthresholded run of budget {:?}, expected t*={} [{} {}] on {}", big, r, equals, tstar, method_name(method), PRESET_NAMES[preset], tree.show()), rep);
+                    ok = false;
+                }
+                Some(Err(msg)) => {
+                    ctx.violation("run-failed", &format!("{} at budget {} threshold {} on {}", msg, big, r, tree.show()), rep);
+                    return false;
+                }
+                None => {
+                    ctx.violation("stopped-late", &format!("solve(N={}, r={}) did not return within 120 s although the bound is below the threshold after {} iterations [{} {}] on {}", big, r, tstar, method_name(method), PRESET_NAMES[preset], tree.show()), rep);
+                    return false;
                 }
             }
         }
